@@ -24,7 +24,14 @@ from common import fx, unfx, rq, enc_list, dec_list, close
 
 REQUIRED = ['kfold_partition', 'schedule_out_of_fold', 'coef_convex', 'coef_nan_iff', 'discrete_onehot',
             'predict_combination', 'predict_combination_nll', 'predict_in_hull', 'predict_in_hull_nll',
-            'stepwise_sound', 'stepwise_not_worse', 'stepwise_local_opt', 'stepwise_start_nan']
+            'stepwise_sound', 'stepwise_not_worse', 'stepwise_local_opt', 'stepwise_start_nan',
+            # Props/C20_Gen.lean: ties of the regenerated lines of SuperLearner.fit / predict (Gen/Stack.lean) to the model
+            'sl_coefficients_generated', 'coef_convex_generated', 'sl_fit_full_generated', 'sl_fit_discrete_generated',
+            'sl_discrete_generated', 'sl_predict_l2_generated', 'sl_predict_nloglik_generated',
+            'predict_in_hull_generated', 'sl_cv_calls_generated', 'cv_schedule_generated',
+            # Props/C20_Step.lean: the column bookkeeping of StepwiseSL.fit (Gen/Stepwise.lean)
+            'sw_start_generated', 'sw_fits_generated', 'sw_break_generated', 'sw_avail_generated', 'search_generated',
+            'stepwise_sound_generated']
 RULE = ('SuperLearner: cells loss {L2, nloglik} x discrete {no, yes} x 1..5 candidates, two fold counts from 2..10 per '
         'cell, n random in 10..200 (n not divisible by folds in most cases), synthetic memorising spies and spies '
         'wrapping real learners (EmpiricalMeanSL, GLMSL, StepwiseSL, sklearn); plus rejected (folds > n, folds < 2), '
@@ -410,7 +417,11 @@ def k_superlearner(chk, drv, case, out, X, y, Xq):
     if out['err'] is not None:
         chk.k(False, 'implementation raised where the model runs', dict(ctx, impl=out['err'], model=rep['status']))
         return
-    ok = rep['status'] == 'ok' and rep['trace'] == canon_fit_trace(out['fit_log'])
+    # (executed: the regenerated lines of SuperLearner.fit, Gen/Stack.lean -- fold loop, coefficient post-processing,
+    #  refit decisions; `model` = the hand-written model of Props/C20.lean gives the same, `stored` = every record of the
+    #  fold loop stores its predictions in the rows it predicted)
+    ok = rep['status'] == 'ok' and rep['trace'] == canon_fit_trace(out['fit_log']) and rep.get('model') == '1' \
+        and rep.get('stored') == '1'
     # the model's clones are fresh objects: every fit is on its own object, never on the caller's candidate
     oids = [e['oid'] for e in out['fit_log'] if e['ev'] == 'fit']
     chk.k(len(set(oids)) == len(oids) and not (set(oids) & set(out['orig_ids'])),
@@ -442,7 +453,8 @@ def k_superlearner(chk, drv, case, out, X, y, Xq):
         r3, _ = drv.ask('slpredict', loss='nloglik', b=fx(1e-6), coefs=enc_list(mc, fx),
                         preds=';'.join(enc_list(row, fx) for row in Pq))
         mp = dec_list(r3['y'], unfx) if r3['status'] == 'ok' else []
-    chk.k(len(mp) == len(out['pred']) and all(close(a, b_, rtol=1e-9, atol=1e-12) for a, b_ in zip(mp, out['pred'])),
+    chk.k(len(mp) == len(out['pred']) and all(close(a, b_, rtol=1e-9, atol=1e-12) for a, b_ in zip(mp, out['pred']))
+          and r3.get('model') == '1',
           'predict: model vs implementation', dict(ctx, model=mp[:5], impl=out['pred'][:5]))
 
 
@@ -776,6 +788,9 @@ def check_stepwise(chk, drv, case):
             ok = rep['status'] == 'ok' and rep['cols'] == enc_cols(out['cols']) and rep['done'] == '1' and \
                 unfx(rep['aic']) == out['aic'] and \
                 rep['visited'] == ';'.join(enc_cols(c) for c, _ in log[1:])
+        # executed: the search driven by the column bookkeeping regenerated from StepwiseSL.fit (Gen/Stepwise.lean);
+        # `model` = the hand-written Stepwise.search agrees (search_generated)
+        ok = ok and rep.get('model') == '1'
         chk.k(ok, 'stepwise: model reproduces visited sequence, cols_optim and AIC',
               {'case': case, 'model': rep, 'impl': {k_: out.get(k_) for k_ in ('cols', 'aic', 'err')},
                'log': [(enc_cols(c), a) for c, a in log][:40]} if not ok else None)
